@@ -79,5 +79,6 @@ class token_case_formal_part_of_association_element_in_map_between_tokens(case.R
     def _fix_violation(self, oViolation):
         lTokens = oViolation.get_tokens()
         dAction = oViolation.get_action()
-        lTokens[dAction["index"]].set_value(dAction["value"])
-        oViolation.set_tokens(lTokens)
+        if dAction["value"] is not None:
+            lTokens[dAction["index"]].set_value(dAction["value"])
+            oViolation.set_tokens(lTokens)
